@@ -324,7 +324,7 @@ static pid_t spawn(int slot, const std::function<void(uint64_t)>& body, int chun
 	}
 	sl.cur[0] = 0;
 	worker_flush();
-	fflush(stdout);
+	fflush(NULL);
 	_exit(0);
 }
 void parallel(uint64_t n, const std::function<void(uint64_t)>& body, int chunk) {
